@@ -146,13 +146,28 @@ def forbidden_scan(vfiles=None):
     return bad
 
 
+TRANSLATOR_FAILURES = {}   # translator sub-directory -> list of Gen/*.v files it writes (filled by run_translators)
+
+
+def _translator_outputs(sub):
+    """Names of the Gen/*.v files a translator writes (read off its source: string literals ending in Gen.v)."""
+    try:
+        src = open(os.path.join(ROOT, 'tools', 'gotocoq', sub, 'main.go')).read()
+    except OSError:
+        return []
+    return sorted(set(re.findall(r'"([A-Za-z0-9_]+Gen\.v)"', src)))
+
+
 def run_translators():
     """Regenerate coq/theories/Gen/*.v from /repo: every sub-directory of tools/gotocoq with a main.go is a
-    translator.  Returns (ok, log)."""
+    translator.  Returns (ok, log); the failed translators and their output files are left in TRANSLATOR_FAILURES
+    (a failed translator leaves a stale or missing Gen file: only the properties whose dependency cone contains
+    that file are affected, see check_props)."""
     tool = os.path.join(ROOT, 'tools', 'gotocoq')
     gen = os.path.join(THEORIES, 'Gen')
     os.makedirs(gen, exist_ok=True)
     ok, logs = True, []
+    TRANSLATOR_FAILURES.clear()
     if not os.path.isdir(tool):
         return True, ''
     for sub in sorted(os.listdir(tool)):
@@ -162,7 +177,8 @@ def run_translators():
                      env={'GOFLAGS': '-mod=mod', 'GOWORK': 'off'})
         if rc != 0:
             ok = False
-            logs.append('[translator %s failed]\n%s' % (sub, out[-3000:]))
+            TRANSLATOR_FAILURES[sub] = _translator_outputs(sub)
+            logs.append('[translator %s failed; its output %s is stale]\n%s' % (sub, TRANSLATOR_FAILURES[sub], out[-3000:]))
     return ok, '\n'.join(logs)
 
 
@@ -170,9 +186,7 @@ def coq_build(targets=None, jobs=16, timeout=3000):
     """(Re)build .vo files (full build, no -vos). targets: list of paths relative to coq/ (e.g.
     theories/Props/C20.vo); None = all. Returns (ok, output)."""
     with Lock('coq'):
-        ok, out0 = run_translators()
-        if not ok:
-            return False, 'translator failed:\n' + out0
+        ok0, out0 = run_translators()   # a failed translator does not stop the build of unaffected properties
         mk = os.path.join(COQ, 'Makefile')
         cp = os.path.join(COQ, '_CoqProject')
         sh([os.path.join(ROOT, 'tools', 'gen_coqproject.sh')], cwd=ROOT)
@@ -182,7 +196,7 @@ def coq_build(targets=None, jobs=16, timeout=3000):
                 return False, out
         t = ' '.join(targets) if targets else ''
         rc, out = sh('make -k -j%d %s' % (jobs, t), cwd=COQ, timeout=timeout)
-        return rc == 0, out
+        return rc == 0, (('translator failed:\n' + out0 + '\n') if not ok0 else '') + out
 
 
 def theorem_names(vfile):
@@ -216,6 +230,15 @@ def check_props(prop, workdir, extra_modules=()):
     bad = forbidden_scan([f[len('theories/'):] for f in files])
     res['forbidden'] = bad
     res['cone'] = dep_cone([f[len('theories/'):] for f in files])
+    # a failed translator breaks exactly the properties whose cone contains its (now stale) output
+    stale = sorted(g for outs in TRANSLATOR_FAILURES.values() for g in outs
+                   if any(c.endswith('Gen/' + g) or c.endswith(g) for c in res['cone']))
+    unknown = [t for t, outs in TRANSLATOR_FAILURES.items() if not outs]
+    res['stale_gen'] = stale + ['(translator %s: outputs unknown)' % t for t in unknown]
+    if res['stale_gen']:
+        ok = False
+        res['build_ok'] = False
+        res['build_log'] = ('translator failed, stale: %s\n' % res['stale_gen']) + res['build_log']
     for f in files:
         vf = os.path.join(COQ, f)
         names = theorem_names(vf)
@@ -245,6 +268,11 @@ def check_props(prop, workdir, extra_modules=()):
     res['obligations'] = len(res['theorems'])
     res['discharged'] = sum(1 for t in res['theorems'] if t['status'] in ('closed', 'axioms-allowed'))
     if bad:
+        res['discharged'] = 0
+    if res.get('stale_gen'):   # theorems were checked against definitions that no longer reflect the source
+        for t in res['theorems']:
+            if t['status'] in ('closed', 'axioms-allowed'):
+                t['status'] = 'stale-translation'
         res['discharged'] = 0
     return res
 
